@@ -347,7 +347,14 @@ theorem fromBytes_spec (bs : List Nat) (hl : bs.length = 32) (hb : ∀ x ∈ bs,
   refine ⟨limbs4_mk (bytesLimb_lt ..) (bytesLimb_lt ..) (bytesLimb_lt ..) (bytesLimb_lt ..), ?_⟩
   rw [eval_four, bytesLimb_eq h0 h1 h2 h3 h4 h5 h6 h7, bytesLimb_eq h8 h9 h10 h11 h12 h13 h14 h15,
     bytesLimb_eq h16 h17 h18 h19 h20 h21 h22 h23, bytesLimb_eq h24 h25 h26 h27 h28 h29 h30 h31]
-  simp only [leValue, List.foldr]
+  show _ = leValue ([b0, b1, b2, b3, b4, b5, b6, b7] ++ ([b8, b9, b10, b11, b12, b13, b14, b15] ++
+    ([b16, b17, b18, b19, b20, b21, b22, b23] ++ [b24, b25, b26, b27, b28, b29, b30, b31])))
+  rw [leValue_append, leValue_append, leValue_append]
+  simp only [List.length_cons, List.length_nil, Nat.zero_add, Nat.reduceAdd, pow256_8]
+  generalize leValue [b0, b1, b2, b3, b4, b5, b6, b7] = l0
+  generalize leValue [b8, b9, b10, b11, b12, b13, b14, b15] = l1
+  generalize leValue [b16, b17, b18, b19, b20, b21, b22, b23] = l2
+  generalize leValue [b24, b25, b26, b27, b28, b29, b30, b31] = l3
   omega
 
 theorem fromBytes_toBytes (a : List Nat) (ha : Limbs4 a) :
